@@ -293,3 +293,22 @@ def run(tier, seed):
         need['kind_%s' % k] = 50
     return common.finish(PROP, tier, seed, total, RULE, t0, ASSUME, min_events=need,
                          extra={'builds': [v for v, _ in variants]})
+
+
+def rejudge(case, recs, res, variant, v):
+    import replay
+    exp = replay.interpret(case)
+    for r in recs:
+        if r.kind != 'o' or r.op not in exp:
+            continue
+        items = exp[r.op]
+        if not items:
+            continue
+        if case.type in PAIR:
+            xs = [a for a, _ in items]
+            second = [b for _, b in items]
+            ws = second if case.type != 'Covariance' else None
+            ys = second if case.type == 'Covariance' else None
+        else:
+            xs, ws, ys = items, None, None
+        check_state(case.type, r.kv, xs, ws, ys, res, case, variant, '(replay, op %d)' % r.op)
